@@ -292,7 +292,7 @@ PROPS = {
         modules=["pd_results"],
         contracts=[f"{BMGR}._parse_result", f"{BMGR}._set_distributed_power", f"{BMGR}._set_distributed_power#assumed_by_distribute",
                    f"{BMGR}._distribute_power", f"{PVM}._set_api_power", f"{PVM}._set_api_power#for_caller",
-                   f"{PVM}.distribute_power"],
+                   f"{PVM}.distribute_power", f"{PVM}.distribute_power#no_inverters"],
         lemmas=[],
         bounded=[],
         level="proof",
